@@ -141,15 +141,57 @@ def build_variant(recs, delim, mode, probe):
     return conv
 
 
+def build_history(recs, delim, probe):
+    """Canonical pairs first, then per record: two attempts that must be rejected (a new prefix on an existing URI
+    prefix; an existing prefix as a later synonym), every synonym by merge, and a merge that is matched through a
+    synonym while bringing a different URI prefix and a brand-new synonym.  Returns (converter, model)."""
+    conv = Converter([], delimiter=delim)
+    m = Model([], delim)
+    for r in recs:
+        conv.add_record(Record(prefix=r.prefix, uri_prefix=r.uri_prefix))
+        m.records.append(mrec(r.prefix, r.uri_prefix))
+    probe(conv, m)
+    for i, r in enumerate(recs):
+        for bad in (
+            Record(prefix=f"gh{i}", uri_prefix=r.uri_prefix, prefix_synonyms=[f"gs{i}"]),
+            Record(prefix=f"gq{i}", uri_prefix=f"gu{i}", prefix_synonyms=[f"gt{i}", r.prefix]),
+        ):
+            try:
+                conv.add_record(bad)
+                raise AssertionError("harness: this add_record must be rejected")
+            except ValueError:
+                pass
+        probe(conv, m)
+        for s in r.psyn:
+            conv.add_record(Record(prefix=s, uri_prefix=r.uri_prefix), merge=True)
+            cur = m.records[i]
+            m.records[i] = mrec(cur.prefix, cur.uri_prefix, cur.psyn + (s,), cur.usyn)
+        for s in r.usyn:
+            conv.add_record(Record(prefix=r.prefix, uri_prefix=s), merge=True)
+            cur = m.records[i]
+            m.records[i] = mrec(cur.prefix, cur.uri_prefix, cur.psyn, cur.usyn + (s,))
+        probe(conv, m)
+        if r.psyn:
+            conv.add_record(Record(prefix=r.psyn[0], uri_prefix=f"nu{i}", prefix_synonyms=[f"ns{i}"]), merge=True)
+            cur = m.records[i]
+            m.records[i] = mrec(cur.prefix, cur.uri_prefix, cur.psyn + (f"ns{i}",), cur.usyn + (f"nu{i}",))
+            probe(conv, m)
+    return conv, m
+
+
+GHOSTS = [f"{g}{i}" for i in range(3) for g in ("gh", "gs", "gq", "gt", "ns")]
+
+
 def run_case(case, ctx=None):
     fails = []
     recs = recs_from_json(case["recs"])
     d = case["delim"]
     b = bounds(case.get("tier", "quick"))
-    model = Model(recs, d)
-    prefixes = sorted(model.all_prefixes()) + UNREG
+    model0 = Model(recs, d)
     ids = identifiers(d)
-    for mode in ("ctor", "merge-late"):
+    for mode in ("ctor", "merge-late", "history"):
+        model = model0
+        prefixes = sorted(model.all_prefixes()) + UNREG + (GHOSTS if mode == "history" else [])
         if mode == "merge-late" and not any(r.psyn or r.usyn for r in recs):
             continue
         where = f"records {case['recs']} delimiter {d!r} mode {mode}"
@@ -161,7 +203,10 @@ def run_case(case, ctx=None):
                 check_string(conv, m, p + d + "1", step, _w + " (intermediate state)")
 
         try:
-            conv = build_variant(recs, d, mode, probe)
+            if mode == "history":
+                conv, model = build_history(recs, d, probe)
+            else:
+                conv = build_variant(recs, d, mode, probe)
         except Exception as e:  # noqa
             fails.append(("C02/construction-raises/" + mode, f"{where}: {type(e).__name__}: {e}"))
             continue
@@ -215,7 +260,8 @@ def describe(tier):
     return {
         "level": "model_checking",
         "rule": "all sets of <= max_prefixes CURIE strings from {'',a,A,b,ab} x partitions into <=3 records x canonical choices x 0..2 "
-        "URI synonyms per record x 3 delimiters x 2 construction modes; queries: (registered + 4 unregistered prefixes) x 13 "
+        "URI synonyms per record x 3 delimiters x 3 construction modes (constructor; synonyms arriving late by merge; a history with rejected additions and a merge matched "
+        "through a synonym, probed between the steps); queries: (registered + 4 unregistered prefixes) x 13 "
         "identifiers through 6 entry points, plus all strings up to string_len over {a,A,b,1,delimiter chars}; "
         "distinct_nontrivial = distinct converter states with at least one CURIE-prefix synonym",
         "bounds": bounds(tier),
